@@ -73,6 +73,14 @@ fn main() {
                 std::fs::write(p, serde_json::to_string_pretty(&serde_json::json!({"stats": rec.stats_json(), "samples": rec.samples})).unwrap()).unwrap();
             }
         }
+        "life" => {
+            let mut rec = rec::Recorder::to_file(&out);
+            life::run(seed, &get("paths", ""), get("sample", "50").parse().unwrap(), &mut rec);
+            eprintln!("{}", serde_json::to_string(&rec.stats_json()).unwrap());
+            if let Some(p) = m.get("stats") {
+                std::fs::write(p, serde_json::to_string_pretty(&serde_json::json!({"stats": rec.stats_json(), "samples": rec.samples})).unwrap()).unwrap();
+            }
+        }
         "ta" => {
             let mut o = fndrv::Out::new(&out);
             tadrv::run(seed, m.get("paths").map(|s| s.as_str()), get("sample", "100").parse().unwrap(), get("random", "50").parse().unwrap(), &mut o);
